@@ -10,10 +10,10 @@ CONSTANTS
   Deltas <- D_One
   Factors <- F_Few
   Shifts <- S_Few
-  PertKinds <- K_Two
-  NumSyss <- N_Three
+  PertKinds <- K_None
+  NumSyss <- N_Two
   RrefFlags <- FL_Two
-  Options <- O_Default
+  Options <- O_Hist
   MaxEvals = 2
   TraceSpecies <- T_None
   TraceExp <- T_Exp
